@@ -287,6 +287,28 @@ func cmdCheck(args []string) int {
 		}
 		structural = append(structural, r)
 	}
+	// atomic-only fields: every use of the field's address is an argument of a sync/atomic call
+	for _, ao := range prog.cs.AtomicOnly {
+		in := false
+		for _, p := range ao.Props {
+			if p == *prop {
+				in = true
+			}
+		}
+		if !in {
+			continue
+		}
+		bad := atomicOnlyViolations(prog, ao)
+		o := &Obligation{Name: sanitize(ao.Pkg) + "." + ao.Field + ":structural.atomic-only", Kind: "structural", Func: ao.Field, Where: ao.Where, Expect: "unsat",
+			Text: "field " + ao.Field + " is accessed only through sync/atomic"}
+		r := &oblResult{O: o, Q: "; decided by scanning the SSA of the declaring package\n"}
+		if len(bad) == 0 {
+			r.Res = SolverResult{Status: "unsat", Solver: "kbv-ssa-scan"}
+		} else {
+			r.Res = SolverResult{Status: "unknown", Solver: "kbv-ssa-scan", Output: "plain accesses: " + strings.Join(bad, ", ")}
+		}
+		structural = append(structural, r)
+	}
 	// global invariants: proved from the package initialisers
 	for _, pk := range prog.pkgs {
 		has := false
@@ -566,6 +588,53 @@ func cmdCheck(args []string) int {
 
 func round3(f float64) float64 {
 	return float64(int(f*1000+0.5)) / 1000
+}
+
+// atomicOnlyViolations lists the places where the field is read or written directly.
+func atomicOnlyViolations(prog *Program, ao AtomicOnlyDecl) []string {
+	i := strings.LastIndex(ao.Field, ".")
+	if i < 0 {
+		return []string{"bad designator"}
+	}
+	tn, fn := ao.Field[:i], ao.Field[i+1:]
+	var bad []string
+	for key, f := range prog.funcs {
+		if f.Pkg == nil || f.Pkg.Pkg.Path() != ao.Pkg || f.Blocks == nil {
+			continue
+		}
+		for _, b := range f.Blocks {
+			for _, in := range b.Instrs {
+				fa, ok := in.(*ssa.FieldAddr)
+				if !ok {
+					continue
+				}
+				pt := fa.X.Type().Underlying().(*types.Pointer)
+				n, ok := pt.Elem().(*types.Named)
+				if !ok || n.Obj().Name() != tn {
+					continue
+				}
+				if pt.Elem().Underlying().(*types.Struct).Field(fa.Field).Name() != fn {
+					continue
+				}
+				for _, r := range *fa.Referrers() {
+					okUse := false
+					if c, isCall := r.(*ssa.Call); isCall {
+						if strings.HasPrefix(calleeName(&c.Call), "sync/atomic.") {
+							okUse = true
+						}
+					}
+					if _, isDbg := r.(*ssa.DebugRef); isDbg {
+						okUse = true
+					}
+					if !okUse {
+						bad = append(bad, trimName(key)+" at "+prog.ssa.Fset.Position(r.Pos()).String())
+					}
+				}
+			}
+		}
+	}
+	sort.Strings(bad)
+	return bad
 }
 
 // findCallers lists functions that may call f: static calls, closures, and interface
